@@ -116,7 +116,7 @@ def discharge(ob, z3_ms=None, cli_s=None, use_cli=True):
                 keep.append(f); rest.remove(f); used |= sy; changed = True
     full = qf + keep
     quant = bool(keep)
-    r, sol = _check(qf, ob.goal, z3_ms)
+    r, sol = _check(qf, ob.goal, min(z3_ms, 1500) if quant else z3_ms)
     if r == z3.unsat:
         return dict(status="proved", backend="z3-5.1(api)", time=time.time() - t0, model=None)
     cand = sol.model() if r == z3.sat else None
